@@ -149,4 +149,44 @@ var plans = map[string]*plan{
 		FloorsThorough: map[string]int64{"c09.histories": 55000, "classes": 300},
 		Assumptions:    []string{"quiescence by synctest.Wait(); keep-alive expiry happens in virtual time", "server-initiated Close is executed at the end of every history but not asserted (the statement does not cover it)"},
 	},
+	"C10": {
+		Level:          "exploration",
+		Rule:           "sequential histories (12..36 steps, synctest) over client ids {s, s1, t} (one a prefix of another) of CONNECT(CleanSession 0/1) / SUBSCRIBE / UNSUBSCRIBE / DISCONNECT / abrupt close, at most one live connection per id. Model: id -> subscriptions kept by CleanSession=0 connections. CONNACK SessionPresent must equal the model; after the new connection answered one PINGREQ, 7 probe publishes from another client must reach exactly the model's filters at the stored granted QoS (C01 oracle) on every live connection, after every connect and every end. distinct = (clean, state kept, number of restored subscriptions).",
+		Quick:          []batchSpec{{Test: "TestC10", N: 8, Timeout: 15 * m}},
+		Thorough:       []batchSpec{{Test: "TestC10", N: 16, Timeout: 60 * m}},
+		EvalStats:      []string{"c10.connects"},
+		Floors:         map[string]int64{"c10.histories": 1500, "c10.connects": 8000, "c10.probes": 100000, "classes": 12},
+		FloorsThorough: map[string]int64{"c10.histories": 45000, "classes": 12},
+		Assumptions:    []string{"quiescence by synctest.Wait()", "takeover of a live client id is outside the statement and not generated"},
+	},
+	"C11": {
+		Level: "exploration",
+		Rule: "first packets: every non-CONNECT packet type, reserved types, garbage; CONNECT product of protocol name/level (8 variants) x client id (ok, empty, 33 and 200 chars, non-printable) x CleanSession x credentials (5 variants) x will, plus malformed CONNECTs (reserved flag, will-flag inconsistencies, password without user, bodies cut at 12 offsets, wrong remaining lengths, 5-byte length); each followed by SUBSCRIBE '#', a retained and a plain PUBLISH; under authenticators mockSuccess, mockFailure and a harness authenticator keyed on user name. " +
+			"Oracle at quiescence (synctest): CONNACK 0 iff acceptable; otherwise closed, preceded at most by one CONNACK whose code is among the applicable refusal reasons {1,2,4}; a witness on '#', a fresh subscriber (retained store) and a follow-up CleanSession=0 CONNECT (sessions) must show no effect. No CONNECT / partial CONNECT + silence is closed at the connect timeout in virtual time. distinct = (authenticator, first-packet kind, answer).",
+		Quick:       []batchSpec{{Test: "TestC11", N: 8, Timeout: 15 * m}},
+		Thorough:    []batchSpec{{Test: "TestC11", N: 16, Timeout: 30 * m}},
+		EvalStats:   []string{"c11.first_packets", "c11.silence_cases"},
+		Floors:      map[string]int64{"c11.first_packets": 1500, "c11.silence_cases": 4, "classes": 100},
+		Assumptions: []string{"client identifiers longer than 23 bytes or non-printable may be accepted or refused with code 2 (server policy)", "a malformed first packet may be closed without CONNACK"},
+	},
+	"C19": {
+		Level:       "exploration",
+		Rule:        "K in {1,2,3,5,10,60} s x pattern {silent from CONNACK; 8 intervals of traffic then silent; PINGREQ every 0.25K/0.5K/0.9K/0.99K for 50 intervals; PUBLISH-only at those intervals; a packet trickled one byte per 0.9K (recorded, not asserted)} in a synctest bubble over net.Pipe, so time is virtual and exact. Every PINGREQ must be answered, an active client must never be dropped, a silent one must be dropped later than K and no later than 2K after its last byte, and a witness must then receive its will exactly once. distinct = (K, pattern, interval).",
+		Quick:       []batchSpec{{Test: "TestC19", N: 4, Timeout: 10 * m}},
+		Thorough:    []batchSpec{{Test: "TestC19", N: 4, Timeout: 10 * m}},
+		EvalStats:   []string{"c19.runs"},
+		Floors:      map[string]int64{"c19.runs": 84, "c19.pings_answered": 1000, "classes": 84},
+		Exhaustive:  func(r *result) bool { return r.stats["c19.runs"] == 84 },
+		Assumptions: []string{"virtual time (testing/synctest) changes when timers fire, not what the code does when they fire"},
+	},
+	"C02": {
+		Level:          "exploration",
+		Rule:           "broker role: scripts over packet ids mixing QoS1 PUBLISH, QoS2 PUBLISH, DUP QoS2 PUBLISH carrying different bytes, PUBREL, repeated PUBREL and filler of more than two ring sizes; exhaustive up to length 5 over a 6-token alphabet with 2 ids (thorough 7), sampled longer scripts over 3..4 ids; after every packet, at synctest quiescence, the publisher's wire must show exactly the one matching ack and the QoS2 subscriber's wire exactly the due hand-overs: none before PUBREL, one at PUBREL (when first PUBRELs come in exchange order as MQTT-4.6.0 demands of a sender; otherwise no later than the PUBREL of all older exchanges), never again, always the first PUBLISH's content. distinct = script shapes.",
+		Quick:          []batchSpec{{Test: "TestC02Broker", N: 8, Timeout: 15 * m}},
+		Thorough:       []batchSpec{{Test: "TestC02Broker", N: 16, Timeout: 60 * m}},
+		EvalStats:      []string{"c02.scripts"},
+		Floors:         map[string]int64{"c02.scripts": 8000, "c02.steps": 50000, "classes": 5000},
+		FloorsThorough: map[string]int64{"c02.scripts": 300000, "classes": 100000},
+		Assumptions:    []string{"quiescence by synctest.Wait()", "the client role of the property is checked by the scripted-peer workload (TestC02Client) where built"},
+	},
 }
